@@ -60,7 +60,57 @@ package runtime
 //@   ensures[bytes-record] err == nil && VarintVal(dAtA, 0) & 7 == 2 ==> n == VarintEnd(dAtA, VarintEnd(dAtA, 0) + 1) + 1 + int(VarintVal(dAtA, VarintEnd(dAtA, 0) + 1))
 //@   ensures[fixed32-record] err == nil && VarintVal(dAtA, 0) & 7 == 5 ==> n == VarintEnd(dAtA, 0) + 1 + 4
 //@   ensures[no-other-wiretype] err == nil ==> VarintVal(dAtA, 0) & 7 <= 5 && VarintVal(dAtA, 0) & 7 != 4
-//@   bounded group records (wire types 3/4): safety, progress and termination only; n is not related to the nested record lengths
+//@   note group records (wire types 3/4): this unbounded contract gives safety, progress and termination; the record length of group records is checked by the bounded template contracts Skip#group-* below
+
+//@ func Skip#group-flat
+//@   property C15, C14
+//@   mode bv
+//@   bounded group records, template SG(a) EG(a'): one-byte tags, any field numbers (Skip matches groups by depth only)
+//@   loop 1: unroll 3
+//@   loop 2: unroll 11
+//@   loop 3: unroll 11
+//@   loop 4: unroll 11
+//@   requires len(dAtA) >= 2 && dAtA[0] < 0x80 && dAtA[0] >= 8 && dAtA[0] & 7 == 3 && dAtA[1] < 0x80 && dAtA[1] >= 8 && dAtA[1] & 7 == 4
+//@   ensures[group-length] err == nil && n == 2
+
+//@ func Skip#group-nested
+//@   property C15, C14
+//@   mode bv
+//@   bounded group records, template SG(a) SG(b) EG(b) EG(a) with independent one-byte field numbers a, b
+//@   loop 1: unroll 5
+//@   loop 2: unroll 11
+//@   loop 3: unroll 11
+//@   loop 4: unroll 11
+//@   requires len(dAtA) >= 4 && dAtA[0] < 0x80 && dAtA[0] >= 8 && dAtA[0] & 7 == 3 && dAtA[1] < 0x80 && dAtA[1] >= 8 && dAtA[1] & 7 == 3
+//@   requires dAtA[2] == dAtA[1] + 1 && dAtA[3] == dAtA[0] + 1
+//@   ensures[group-length] err == nil && n == 4
+
+//@ func Skip#group-siblings
+//@   property C15, C14
+//@   mode bv
+//@   bounded group records, template SG(a) SG(b) EG(b) SG(c) EG(c) EG(a), one-byte tags
+//@   loop 1: unroll 7
+//@   loop 2: unroll 11
+//@   loop 3: unroll 11
+//@   loop 4: unroll 11
+//@   requires len(dAtA) >= 6 && dAtA[0] < 0x80 && dAtA[0] >= 8 && dAtA[0] & 7 == 3 && dAtA[1] < 0x80 && dAtA[1] >= 8 && dAtA[1] & 7 == 3 && dAtA[3] < 0x80 && dAtA[3] >= 8 && dAtA[3] & 7 == 3
+//@   requires dAtA[2] == dAtA[1] + 1 && dAtA[4] == dAtA[3] + 1 && dAtA[5] == dAtA[0] + 1
+//@   ensures[group-length] err == nil && n == 6
+
+//@ func Skip#group-with-fields
+//@   property C15, C14
+//@   mode bv
+//@   bounded group records, template SG(a) varint(c, 1 byte) fixed32(d) bytes(e, L<=127 payload bytes) EG(a), one-byte tags
+//@   loop 1: unroll 6
+//@   loop 2: unroll 11
+//@   loop 3: unroll 11
+//@   loop 4: unroll 11
+//@   requires len(dAtA) >= 12 && dAtA[0] < 0x80 && dAtA[0] >= 8 && dAtA[0] & 7 == 3
+//@   requires dAtA[1] < 0x80 && dAtA[1] >= 8 && dAtA[1] & 7 == 0 && dAtA[2] < 0x80
+//@   requires dAtA[3] < 0x80 && dAtA[3] >= 8 && dAtA[3] & 7 == 5
+//@   requires dAtA[8] < 0x80 && dAtA[8] >= 8 && dAtA[8] & 7 == 2 && dAtA[9] < 0x80
+//@   requires 10 + int(dAtA[9]) < len(dAtA) && dAtA[10 + int(dAtA[9])] == dAtA[0] + 1
+//@   ensures[group-length] err == nil && n == 11 + int(dAtA[9])
 
 //@ func SizeInputToOptions
 //@   property C05, C04
